@@ -36,6 +36,12 @@ def handOn (c : Nat × EncSource) : Option Nat × Option Nat :=   -- (encodingOv
   | .http | .content | .parent => (none, some c.1)
   | .default => (none, none)
 
+/-- the encoding of a sheet imported by an imported sheet: the first level's choice is handed on (`handOn`) and
+the same decision runs again with the second fetch's own sources -/
+def chooseNested (override http1 explicit1 parent1 http2 explicit2 : Option Nat) (utf8 : Nat) : Nat × EncSource :=
+  let c1 := chooseEncoding override http1 explicit1 parent1 utf8
+  chooseEncoding (handOn c1).1 http2 explicit2 (handOn c1).2 utf8
+
 /-! ### what a fetcher can do, and what becomes of it -/
 
 inductive Fetch
